@@ -7,7 +7,7 @@ import engine, specutil
 def all_targets():
     import t_macros
     ts = list(t_macros.TARGETS)
-    for mod in ("t_vm", "t_values", "t_compile", "t_serde", "t_token", "t_details", "t_dispatch", "t_parse", "t_grammar", "t_clock"):
+    for mod in ("t_vm", "t_values", "t_compile", "t_serde", "t_token", "t_details", "t_dispatch", "t_parse", "t_grammar", "t_clock", "t_sql"):
         try:
             m = __import__(mod)
             ts += m.TARGETS
@@ -95,6 +95,7 @@ def run_target(P, t, time_budget=600):
 def main():
     ap = argparse.ArgumentParser()
     ap.add_argument("--mir", default=None)
+    ap.add_argument("--mir-sql", default=None, help="MIR dump of extensions/to_sql (targets with needs='to_sql')")
     ap.add_argument("--list", action="store_true")
     ap.add_argument("--repo", default="/repo")
     ap.add_argument("--only", default=None)
@@ -119,7 +120,13 @@ def main():
             continue
         if a.prop and a.prop not in t["props"]:
             continue
-        r = run_target(P, t, time_budget=2400 if tier == "thorough" else 600)
+        if t.get("needs") == "to_sql":
+            if not a.mir_sql:
+                r = dict(name=t["name"], props=t["props"], status="inconclusive", why="no MIR dump of extensions/to_sql was given (--mir-sql)", obligations=0, discharged=0, failures=[], paths=0)
+            else:
+                r = run_target(specutil.load_program(a.repo, a.mir, extra_mir=a.mir_sql), t, time_budget=2400 if tier == "thorough" else 600)
+        else:
+            r = run_target(P, t, time_budget=2400 if tier == "thorough" else 600)
         out.append(r)
         print(f"{r['name']:28s} {r['status']:12s} paths={r['paths']} obligations={r['discharged']}/{r['obligations']} solver={r.get('solver_time')}s wall={r.get('wall')}s {r.get('why','')}", flush=True)
         if a.v or r["status"] == "failed":
